@@ -65,7 +65,8 @@ Model-level references (`ModelImpl.new_ref / change_ref / del_ref`, model.py; PR
 * a reference member that is created where a model-level reference of its name is visible SHADOWS it:
   `on_create_ref` (space.py, own references, derived ones created by `SpaceManager.new_ref` /
   `change_ref`) and `UserSpaceImpl.on_inherit` (a reference derived through a change of bases; /repo
-  5b95fbf) call `clear_attr_referrers(global_refs[name])`: `shadowClears`.
+  5b95fbf) call `clear_attr_referrers(global_refs[name])`: `shadowClears`; so does the cells branch of
+  `on_inherit` for a DERIVED CELLS that hides a model-level reference (/repo cdc3def): `shadowedCells`.
 
 Not in the machine: object-valued references (the reference `S` of `S.x` itself), parametrised spaces
 (`clear_subs_rootitems`), attribute paths to CELLS of other spaces at source level, `_model.x`.
@@ -534,7 +535,8 @@ def stepCovered (P : Params) (w : W) : Op → Bool
 `step` / `Op` is the machine the theorems of `Proofs/EditMachineRun.lean` speak about: in a state
 without model-level references `clearingG = clearing`.  `stepG` adds `model.x = v` / `del model.x`
 and the clearing of shadowed model-level references; it is what the driver layer `edit` runs and
-compares with modelx, evaluating `stepCoveredG` at every step. -/
+compares with modelx, evaluating `stepCoveredG` at every step.  Its theorems (coverage from `SM.Inv`,
+`stepG_cig`, `runG_cig`, `runG_sim`): `Proofs/EditMachineGlobals*.lean`, stated in `Props/C02.lean`. -/
 
 inductive OpG
   | op (o : Op)
